@@ -749,9 +749,13 @@ theorem mergeNext_winv {a : CBA} {pre post : List Block} {c : Block}
 /-- `free(x)` when no used block starts at `x` (never allocated, interior address, already
     freed): nothing changes -/
 theorem free_noop {a : CBA} {bs : List Block} (h : WInv a bs) {x : Nat}
-    (hx : a.off ≤ x ∧ x < a.off + a.size) (hno : ∀ u ∈ bs, u.used = true → u.start ≠ x) :
+    (hx' : x < a.off + a.size) (hno : ∀ u ∈ bs, u.used = true → u.start ≠ x) :
     a.free (some x) = .ok a := by
   simp only [CBA.free]
+  by_cases hlo : x < a.off
+  · rw [if_pos hlo]; rfl
+  rw [if_neg hlo]
+  have hx : a.off ≤ x ∧ x < a.off + a.size := ⟨by omega, hx'⟩
   rcases cell_classify h hx with ⟨pre, b, post, rfl, hb, hc⟩ | hc
   · rw [hc]
     simp only [bind, Except.bind]
@@ -763,7 +767,7 @@ theorem free_noop {a : CBA} {bs : List Block} (h : WInv a bs) {x : Nat}
   · rw [hc]; rfl
 
 theorem free_inv {a : CBA} {bs : List Block} (h : Inv a bs) {x : Nat}
-    (hx : a.off ≤ x ∧ x < a.off + a.size) :
+    (hx : x < a.off + a.size) :
     ∃ a' bs', a.free (some x) = .ok a' ∧ Inv a' bs' ∧ SameFrame a' a ∧
       (∀ u, u.used = true → (u ∈ bs' ↔ u ∈ bs ∧ u.start ≠ x)) := by
   by_cases hno : ∀ u ∈ bs, u.used = true → u.start ≠ x
@@ -783,6 +787,11 @@ theorem free_inv {a : CBA} {bs : List Block} (h : Inv a bs) {x : Nat}
     obtain ⟨a3, c3, post3, e3, hw3, hf3, hc3, hn3, hh3, hu3⟩ := mergeNext_winv hw2 hc2 hna.2
     refine ⟨a3, pre2 ++ c3 :: post3, ?_, ⟨hw3, ?_⟩, hf3.trans (hf2.trans hf1), ?_⟩
     · simp only [CBA.free]
+      have hlo : ¬ x < a.off := by
+        have := tiles_mem hw.tiles (b := b) (by simp)
+        have := hw.offLe
+        omega
+      rw [if_neg hlo]
       have hcell : a.cell x = .ok (some b) := by rw [← hbx]; exact hw.arrAt.cell
       rw [hcell]
       simp only [bind, Except.bind, hbu, Bool.not_true, Bool.false_eq_true, if_false]
